@@ -176,3 +176,53 @@ func VF_C12_Scanner(L, _ int) {
 	vf.Assert("tokens-carry-their-own-line-and-column", ok)
 	vf.Reach("end")
 }
+
+// VF_C12_ScannerQuoted: a quoted rune or string with arbitrary (also multi-byte) content followed
+// by arbitrary bytes: columns count runes, not bytes.
+func VF_C12_ScannerQuoted(inner, tail int) {
+	src := "'" + vf.String("r", inner) + "'" + vf.String("t", tail)
+	if inner > 4 {
+		src = "\"" + vf.String("r", inner-4) + "\"" + vf.String("t", tail)
+	}
+	checkScan(src, len(src))
+	vf.Reach("end")
+}
+
+func checkScan(src string, L int) {
+	vf.Budget(6000000)
+	q := col.Queue[cdc.TokenLike](nil).MakeWithCapacity(uint(L + 2))
+	cdc.Scanner().Make(src, q)
+	vf.Quiesce()
+	toks := q.AsArray()
+	vf.BudgetReset()
+	vf.Assert("ends-with-eof", len(toks) > 0 && toks[len(toks)-1].GetType() == cdc.EOFToken)
+	line, col_ := 1, 1
+	ok := true
+	runes := []rune(src)
+	at := 0
+	for i, t := range toks {
+		if t.GetType() == cdc.EOFToken {
+			ok = ok && i == len(toks)-1
+			continue
+		}
+		for at < len(runes) && runes[at] == ' ' && !(line == t.GetLine() && col_ == t.GetPosition()) {
+			at++
+			col_++
+		}
+		ok = ok && t.GetLine() == line && t.GetPosition() == col_
+		n := len([]rune(t.GetValue()))
+		if strings.HasPrefix(t.GetValue(), "<") && strings.HasSuffix(t.GetValue(), ">") && len(t.GetValue()) == 6 {
+			n = 1
+		}
+		for k := 0; k < n && at < len(runes); k++ {
+			if runes[at] == '\n' {
+				line++
+				col_ = 1
+			} else {
+				col_++
+			}
+			at++
+		}
+	}
+	vf.Assert("tokens-carry-their-own-line-and-column", ok)
+}
